@@ -1,4 +1,5 @@
 import JanetModel.Spec.Model
+import JanetModel.Spec.Template
 import JanetModel.Bytecode.VMPasses
 
 /-!
@@ -223,6 +224,28 @@ theorem subtract_row :
     ∃ r ∈ optimizers, ∃ t ∈ templates, r.tagName = "SUBTRACT" ∧ r.handler = .opreduce .subtract (some .subtractImmediate) (.int 0) (.int 0) ∧
       t.tag = r.tag ∧ t.kind = .varop 0 0 .subtract := by
   decide +kernel
+
+/-! ### the generic side is the REAL bytecode of the templates -/
+
+/-- ★ obligation on the regenerated words: every variadic template of corelib.c decodes to the modelled instruction list -/
+theorem template_words_ok : templates.all templateWordsOk = true := by decide +kernel
+
+/-- ★ inline code of a variadic core function (except unary `-`) computes what running the generic function's actual bytecode
+    (words regenerated from corelib.c, decoded, executed by `VM.exec` from the vararg entry frame) computes -/
+theorem inline_eq_generic_bytecode_partial (T : TupleLaws P) (p : OptRow × CoreFun) (hp : p ∈ variadicPairs) (hne : p.1.tagName ≠ "SUBTRACT")
+    (args : List (Arg P)) (hw : ∀ a ∈ args, a.wf P) (w : P.W) :
+    ∃ m code fuel, evalInline P p.1 args = some m ∧ p.2.words.map decode = code.map some ∧
+      exec P code fuel (frame0 P T (args.map (·.v))) w = some (m w) := by
+  obtain ⟨m, hi, hg⟩ := inline_eq_generic_partial P p hp hne args hw
+  have hmem : p.2 ∈ templates := by
+    simp only [variadicPairs, List.mem_filterMap] at hp
+    obtain ⟨r, _, hr⟩ := hp
+    simp only [templateOf, Option.map_eq_some_iff] at hr
+    obtain ⟨t, ht, rfl⟩ := hr
+    exact List.mem_of_find?_eq_some ht
+  have hok := List.all_eq_true.mp template_words_ok p.2 hmem
+  obtain ⟨code, fuel, hd, hf⟩ := generic_bytecode_correct P T p.2 hok (args.map (·.v)) m hg w
+  exact ⟨m, code, fuel, hi, hd, hf⟩
 
 /-! ### the missing part is false on the unchanged tree: unary minus -/
 
